@@ -368,7 +368,10 @@ impl Database {
             },
         );
         let stmts = parse(sql)?;
-        let stmt = stmts.into_iter().next().ok_or_else(|| Error::Internal("empty".into()))?;
+        let stmt = stmts
+            .into_iter()
+            .next()
+            .ok_or_else(|| Error::Internal("empty".into()))?;
         let mut binder = crate::binder::Binder::new(self.catalog.clone());
         let mut plan = binder.bind(stmt).map_err(|e| e.with_sql(sql))?;
         if optimize {
